@@ -6,7 +6,8 @@ From Coq Require Import ZArith List Bool.
 Import ListNotations.
 From MirV Require Import Mir.DocSpec Mir.CExpr C02.RowCheck C02.Table gen.InterpTable C02.InterpFacts
   C02.GvnCheck gen.GvnFoldTable C02.GvnFacts C02.MemRows
-  C02.PeepholeDefs C02.PeepholeProofs gen.Peephole C02.PeepholeFacts.
+  C02.PeepholeDefs C02.PeepholeProofs gen.Peephole C02.PeepholeFacts
+  Mir.Opcode Mir.DocSpecInt C02.X86Sem C02.X86Check gen.X86Patterns C02.X86TableFacts.
 
 (* Interpreter (mir-interp.c): for every row of the regenerated table (every value, compare, branch
    and overflow opcode) and ALL operand values on which MIR.md defines the instruction, the row's C
@@ -83,3 +84,52 @@ Theorem transform_mul_div_sound : forall op bound mv sq, In (op, bound, mv, sq) 
             match int_res_width op with Some w => eqlow w r d | None => False end.
 Proof. exact muldiv_rows_sound. Qed.
 Print Assumptions transform_mul_div_sound.
+
+(* Generator, x86-64 instruction selection (mir-gen-x86_64.c; patterns[] after the real preprocessor,
+   the early-clobber list of target_get_early_clobbered_hard_regs and the uext8 list of
+   target_machinize are regenerated on every run).  Semantics are attached to the elements of the
+   replacement templates (C02/X86Sem.v: 16 registers, one memory cell, CF ZF SF OF, the ~40 instruction
+   forms the integer patterns use); the byte encoder is not modelled.  For every move, extension,
+   negation, integer arithmetic / logic / shift, multiply, divide, remainder, compare, overflow and
+   branch opcode (xclass_of), every realisation of the operands (hard registers, a memory operand of
+   each integer type, immediates), every machine state, and the row find_insn_pattern selects (the
+   first row of the opcode whose operand pattern matches): the template decodes, runs without fault
+   wherever MIR.md defines the instruction, leaves the documented value on the defined bits of operand 0
+   (takes the documented branch, sets the documented overflow flag), and changes no other register or
+   memory byte except AX/DX for mul/div.  Rows that are not sound are shown to be unreachable. *)
+Theorem x86_pattern_row_sound :
+  forall code cls ops st row, xclass_of code = Some cls ->
+    x86_select x86_table code ops = Some row -> early_ok early_dx code ops ->
+    row_sound_at cls row ops st.
+Proof. exact x86_selected_row_sound. Qed.
+Print Assumptions x86_pattern_row_sound.
+
+(* the same for every row wherever it stands (selection with and without short labels): each row of
+   an in-scope opcode is sound for ALL operands matching its pattern, or it is dead: whenever it matches,
+   an earlier row of the same opcode matches too (today: `mul r r s` -> lea, which would compute r1 + s) *)
+Theorem x86_pattern_rows_sound_or_dead :
+  forall pre code pat tmpl post cls, x86_table = pre ++ (code, pat, tmpl) :: post -> xclass_of code = Some cls ->
+    row_sound_x86 early_dx cls (code, pat, tmpl)
+    \/ (forall ops, pat_match [] pat ops = true -> exists e, In e pre /\ row_matches code ops e = true).
+Proof. exact x86_every_row_sound_or_dead. Qed.
+Print Assumptions x86_pattern_rows_sound_or_dead.
+
+(* every opcode of that scope has rows *)
+Theorem x86_pattern_table_total :
+  forall op cls, xclass_of op = Some cls -> exists row, In row x86_table /\ fst (fst row) = op.
+Proof. exact x86_scope_has_rows. Qed.
+Print Assumptions x86_pattern_table_total.
+
+(* compares: setcc defines the low byte only; with the `uext8 res, res` that target_machinize appends
+   after exactly these opcodes the result register holds the documented 64-bit 0 / 1 *)
+Theorem x86_compare_rows_sound :
+  forall code c sg w ops r st row row2,
+    int_class code = IC_cmp c sg w -> opnd ops 0 = OReg r ->
+    x86_select x86_table code ops = Some row ->
+    x86_select x86_table UEXT8 [OReg r; OReg r] = Some row2 ->
+    exists i1 i2, decode (snd row) = Some i1 /\ decode (snd row2) = Some i2 /\
+    forall d, doc_sem_int code (args_of st ops) = Some d ->
+    exists st1 st2, xrun ops st i1 = Some (st1, None) /\ xrun [OReg r; OReg r] st1 i2 = Some (st2, None)
+      /\ uwrap 64 (regs st2 r) = d /\ (forall r', r' <> r -> regs st2 r' = regs st r') /\ memc st2 = memc st.
+Proof. exact x86_compare_uext8_sound. Qed.
+Print Assumptions x86_compare_rows_sound.
